@@ -31,6 +31,8 @@ package serverinterceptors
 // whatever the state of the context by then
 //@ func UnaryTimeoutInterceptor$1$1
 //@   prop C02
+//@   observe PanicNil = panicnil(handler)
+//@   replay rpc_panicnil
 //@   may-panic handler
 //@   nopanic
 //@   ensures [runs-handler] calls(handler, ctx, req) == 1
@@ -39,6 +41,8 @@ package serverinterceptors
 // A panicking handler yields an Internal status instead of crashing the server.
 //@ func UnaryCrashInterceptor
 //@   prop C02
+//@   observe PanicNil = panicnil(handler)
+//@   replay rpc_panicnil
 //@   opaque toPanicError
 //@   may-panic handler
 //@   nopanic
@@ -50,6 +54,8 @@ package serverinterceptors
 //@   ensures [internal] calls(status.Errorf) == 1 && arg(status.Errorf, 0) == 13 && result == ret(status.Errorf)
 //@ func StreamCrashInterceptor
 //@   prop C02
+//@   observe PanicNil = panicnil(handler)
+//@   replay rpc_panicnil
 //@   opaque toPanicError
 //@   may-panic handler
 //@   nopanic
